@@ -81,7 +81,7 @@ CYCLES = {
   (try (os/spawn ["/nonexistent/c20-no-such-binary"] :p {:in :pipe :out :pipe :err :pipe}) ([e] nil))
   (try (os/execute ["/nonexistent/c20-no-such-binary"] :p) ([e] nil))'''),
     "spawn-kill-wait": ("proc", r'''
-  (def p (os/spawn ["sleep" "100"] :p))
+  (def p (os/spawn ["sleep" "100000"] :p))
   (os/proc-kill p true)'''),
     "spawn-unwaited-gc": ("proc", r'''
   (os/spawn ["true"] :p)
@@ -91,7 +91,7 @@ CYCLES = {
   (os/execute ["sh" "-c" "exit 3"] :p)
   (try (os/execute ["sh" "-c" "exit 4"] :px) ([e] nil))'''),
     "proc-wait-cancelled": ("proc", r'''
-  (def p (os/spawn ["sleep" "100"] :p))
+  (def p (os/spawn ["sleep" "100000"] :p))
   (def t (ev/spawn (try (os/proc-wait p) ([e] nil))))
   (ev/sleep 0)
   (ev/cancel t "stop")       # waiter abandoned while the helper thread is outstanding
@@ -203,9 +203,9 @@ CYCLES = {
   (ev/cancel t "stop")
   (ev/sleep 0)'''),
     "cancel-sleep": ("cheap", r'''
-  (def t (ev/spawn (try (ev/sleep 50) ([e] nil))))
+  (def t (ev/spawn (try (ev/sleep 1000000) ([e] nil))))
   (ev/sleep 0)
-  (ev/cancel t "stop")     # leaves a stale 50 s timer behind
+  (ev/cancel t "stop")     # leaves a stale long timer behind
   (ev/sleep 0)'''),
     "cancel-read": ("cheap", r'''
   (def [r w] (os/pipe))
@@ -224,20 +224,20 @@ CYCLES = {
   (def c (ev/chan))
   (try (ev/with-deadline 0.001 (ev/take c)) ([e] nil))'''),
     "deadline-unused": ("cheap", r'''
-  (ev/with-deadline 50 (+ 1 1))   # finishes at once; the 50 s deadline timer is stale
+  (ev/with-deadline 1000000 (+ 1 1))   # finishes at once; the long deadline timer is stale
   (ev/sleep 0)'''),
     "take-timeout-unused": ("cheap", r'''
   (def [r w] (os/pipe))
   (ev/write w "q")
-  (ev/read r 1 nil 50)            # completes at once; the 50 s timeout is stale
+  (ev/read r 1 nil 1000000)            # completes at once; the long timeout is stale
   (ev/close r) (ev/close w)'''),
 }
 
 COST_N = {  # (quick N, thorough N)
-    "cheap": (400, 5000),
-    "net": (200, 2000),
-    "proc": (60, 600),
-    "thread": (50, 500),
+    "cheap": (500, 5000),
+    "net": (300, 2500),
+    "proc": (100, 800),
+    "thread": (80, 600),
 }
 
 
@@ -304,17 +304,17 @@ def _task(kind, k, rng):
         return ("(def ch%d (ev/chan))" % k,
                 "(assert (= :dl (try (ev/with-deadline %g (ev/take ch%d)) ([e] :dl))))" % (d, k), "done", "")
     if kind == "stale-deadline":
-        # a long deadline on work that finishes at once: the stale timer must not keep the loop alive for 30 s
-        return "", "(ev/with-deadline 30 (ev/sleep %g))" % d, "done", ""
+        # a long deadline on work that finishes at once: the stale timer must not keep the loop alive (11 days)
+        return "", "(ev/with-deadline 1000000 (ev/sleep %g))" % d, "done", ""
     if kind == "stale-timeout":
         return ("(def [r%d w%d] (os/pipe))" % (k, k),
-                "(ev/write w%d \"z\") (ev/read r%d 1 nil 30) (ev/close r%d) (ev/close w%d) (ev/sleep %g)" % (k, k, k, k, d), "done", "")
+                "(ev/write w%d \"z\") (ev/read r%d 1 nil 1000000) (ev/close r%d) (ev/close w%d) (ev/sleep %g)" % (k, k, k, k, d), "done", "")
     if kind == "loop1-interrupt":
         # the embedding API janet_loop1_interrupt (an event with a NULL callback), acknowledged at once
         return "", "(c20/loop1-interrupt) (ev/sleep %g)" % d, "done", ""
     # ---- cancelled waits: the task blocks for "ever"; main cancels it
     if kind == "cancel-sleep":
-        return "", "(ev/sleep 30)", "cancelled", "(ev/cancel t%d :stop)" % k
+        return "", "(ev/sleep 1000000)", "cancelled", "(ev/cancel t%d :stop)" % k
     if kind == "cancel-take":
         return "(def ch%d (ev/chan))" % k, "(ev/take ch%d)" % k, "cancelled", "(ev/cancel t%d :stop)" % k
     if kind == "cancel-tchan-take":
@@ -323,7 +323,7 @@ def _task(kind, k, rng):
         return ("(def [r%d w%d] (os/pipe))" % (k, k), "(ev/read r%d 4)" % k, "cancelled",
                 "(ev/cancel t%d :stop) (ev/spawn (ev/sleep 0.002) (ev/close r%d) (ev/close w%d))" % (k, k, k))
     if kind == "cancel-proc-wait":
-        return ("(def p%d (os/spawn [\"sleep\" \"30\"] :p))" % k, "(os/proc-wait p%d)" % k, "cancelled",
+        return ("(def p%d (os/spawn [\"sleep\" \"100000\"] :p))" % k, "(os/proc-wait p%d)" % k, "cancelled",
                 "(ev/cancel t%d :stop) (os/proc-kill p%d)" % (k, k))
     if kind == "close-under-read":
         # the stream is closed under a pending read: the read returns (nil / error), the task completes
